@@ -28,7 +28,9 @@ func (a Action) String() string {
 			s[i] = strconv.Itoa(x)
 		}
 		return "p:" + strings.Join(s, ",")
-	case "CT", "CTL":
+	case "a":
+		return "a:" + strconv.Itoa(a.IDs[0])
+	case "CT", "CTL", "z":
 		return a.Op + ":" + strconv.FormatInt(a.C, 10)
 	}
 	return a.Op
@@ -108,6 +110,24 @@ func (e *Env) apply(a Action) {
 		} else if len(us) > 0 {
 			e.Push(&tg.Updates{Updates: us})
 		}
+	case "a": // Manager.HandleAffected with the result of the client's own action (marker entry)
+		w.mu.Lock()
+		en, idx, ok := w.entry(a.IDs[0])
+		if ok {
+			w.Emitted = max(w.Emitted, idx+1)
+		}
+		w.mu.Unlock()
+		if ok && en.IsMarker() {
+			e.Affected(en.Chan, en.Pos, en.Count)
+		}
+	case "z": // an affected result that covers no position: (current server pts, 0)
+		w.mu.Lock()
+		p, _ := w.serverState()
+		if a.C != 0 {
+			p = w.chanState(a.C)
+		}
+		w.mu.Unlock()
+		e.Affected(a.C, p, 0)
 	case "T":
 		e.Push(&tg.UpdatesTooLong{})
 	case "CT":
@@ -270,7 +290,7 @@ func CheckC03(w *World, trace []Event, from Snapshot) []Violation {
 	}
 	check := func(i int, seq string, val int) {
 		for _, en := range w.Log {
-			if en.Seq() != seq || en.Pos > val || en.Pos <= base(seq) || dispatched[en.ID] || tooLong[seq] {
+			if en.Seq() != seq || en.Pos > val || en.Pos <= base(seq) || dispatched[en.ID] || tooLong[seq] || en.IsMarker() {
 				continue
 			}
 			key := "c03-store-ahead"
@@ -341,7 +361,7 @@ func CheckC02(w *World, trace []Event, pushedPlain map[int]bool, alreadyDelivere
 	}
 	seen := map[string]bool{}
 	for _, en := range w.Log {
-		if dispatched[en.ID] {
+		if dispatched[en.ID] || en.IsMarker() {
 			continue
 		}
 		if en.Kind == KPlain {
@@ -438,7 +458,7 @@ func CheckOrder(w *World, trace []Event, from Snapshot) []Violation {
 					continue
 				}
 				for _, f := range w.Log {
-					if f.Seq() == en.Seq() && f.Pos <= en.Pos-en.Count && f.Pos > base(f) && !dispatched[f.ID] {
+					if f.Seq() == en.Seq() && f.Pos <= en.Pos-en.Count && f.Pos > base(f) && !dispatched[f.ID] && !f.IsMarker() {
 						key := "c01-manager-skipped-position"
 						if cl := classify(w, f); cl != "" {
 							key = "c01-manager-" + cl
